@@ -456,8 +456,8 @@ func c01Replay(kind string, raw json.RawMessage) (bool, string) {
 
 func init() {
 	mon.Register(&mon.Prop{
-		ID:   "C01",
-		Rule: "exhaustive: every ring of 3 and 4 vertices on the 4x4 lattice (thorough: also 5 vertices on 4x4 and 4 on 5x5), unclosed and closed, x every half-lattice query point of the box +-1, x {no index, R-tree@1, quadtree@1}, under a rotating affine re-encoding; plus corpus rings with 0-2 arbitrary holes, random vertex sequences of 5..300 vertices (repeated vertices, collinear runs, self-intersections, >=64 to cross the default index threshold) with queries snapped to vertex levels, lines, rectangles (degenerate included) and points; object level (Point, SimplePoint, Feature wrappers x Contains/Within/Intersects in both operand orders) on a rotating subset. Non-trivial = distinct shape for which at least one query point was inside or on the shape.",
+		ID:          "C01",
+		Rule:        "exhaustive: every ring of 3 and 4 vertices on the 4x4 lattice (thorough: also 5 vertices on 4x4 and 4 on 5x5), unclosed and closed, x every half-lattice query point of the box +-1, x {no index, R-tree@1, quadtree@1}, under a rotating affine re-encoding; plus corpus rings with 0-2 arbitrary holes, random vertex sequences of 5..300 vertices (repeated vertices, collinear runs, self-intersections, >=64 to cross the default index threshold) with queries snapped to vertex levels, lines, rectangles (degenerate included) and points; object level (Point, SimplePoint, Feature wrappers x Contains/Within/Intersects in both operand orders) on a rotating subset. Non-trivial = distinct shape for which at least one query point was inside or on the shape.",
 		Assumptions: []string{"coordinates in the exact domain (multiples of 1/8, |c| <= 2^20)", "oracle: crossing parity with the half-open rule over exactly the segments the series rule defines (internal/exact.Locate)"},
 		Exhaustive:  func(string) bool { return true },
 		Run:         c01Run,
